@@ -30,7 +30,7 @@ struct Mon {
 static Mon M;
 
 // trace ---------------------------------------------------------------------------------------------------------
-static bool g_record = false, g_mute = false; static std::vector<std::string> g_lines;
+static int g_shutFinals = 0; static bool g_record = false, g_mute = false; static std::vector<std::string> g_lines;
 static std::map<const void *, int> g_clientId; static std::map<const void *, int> g_threadOfObj;    // Thread* -> pool thread id (1-based)
 static std::map<int, int> g_poolThreadOfTid;     // scheduler thread -> pool thread id
 static thread_local int tl_unregClient = 0;
@@ -62,9 +62,11 @@ static void ObserveEvent(const vs::Event & e)
    else if (e.name == "Finish") {snprintf(b, sizeof(b), "{\"e\":\"Finish\",\"t\":%d,\"c\":%d,\"early\":%ld", (int) e.a[0]+1, CId(e.a[1]), e.a[2]); OpenGroup(b, true, e.a[2] != 0);}
    else if (e.name == "UnregBegin") {snprintf(b, sizeof(b), "{\"e\":\"UnregBegin\",\"c\":%d,\"wait\":%ld}", CId(e.a[0]), e.a[1]); Line(b);}
    else if (e.name == "UnregEnd") {snprintf(b, sizeof(b), "{\"e\":\"UnregEnd\",\"c\":%d}", CId(e.a[0])); Line(b);}
-   else if (e.name == "ShutFlag") Line("{\"e\":\"ShutFlag\"}");
-   else if (e.name == "SwapTable") {snprintf(b, sizeof(b), "{\"e\":\"%s\",\"n\":%ld}", e.a[0] ? "SwapActive" : "SwapAvail", e.a[1]); Line(b);}
-   else if (e.name == "ShutFinal") Line("{\"e\":\"ShutFinal\"}");
+   // Shutdown() runs again and again on a pool that is already shut down (the recycler flush restarts at the head of its list whenever some pool
+   // flushed something): the first repetition is kept in the trace, the others - identical no-op rounds - are not
+   else if (e.name == "ShutFlag") {if (g_shutFinals < 2) Line("{\"e\":\"ShutFlag\"}");}
+   else if (e.name == "SwapTable") {if (g_shutFinals < 2) {snprintf(b, sizeof(b), "{\"e\":\"%s\",\"n\":%ld}", e.a[0] ? "SwapActive" : "SwapAvail", e.a[1]); Line(b);}}
+   else if (e.name == "ShutFinal") {if (g_shutFinals < 2) Line("{\"e\":\"ShutFinal\"}"); g_shutFinals++;}
 }
 static void ObserveResume(vs::LThread * me, int kind, const void * obj, int)
 {
@@ -88,17 +90,55 @@ protected:
       M.handled[_id-1].push_back(msg()->what);
       if ((g_record)&&(!g_mute)) {char b[100]; snprintf(b, sizeof(b), "{\"e\":\"Handle\",\"t\":%d,\"c\":%d,\"m\":%u}", g_poolThreadOfTid[vs::tl_id], _id, msg()->what); Line(b);}
       {static Mutex m; DECLARE_MUTEXGUARD(m);}     // a pre-emption point inside the handler
+      FollowUp(msg()->what);
+      {static Mutex m2; DECLARE_MUTEXGUARD(m2);}   // ... and another one after the follow-up submission
+      if ((P_trigX() == _id-1)&&(msg()->what == 1)) HandlerUnregistersVictim();
       M.totalActive--; M.activeIn[_id]--;
    }
+   static int P_trigX(); static void HandlerUnregistersVictim(); void FollowUp(uint32 what);
 };
 
-struct Plan {bool destroyer; int destroyAfter; int poolSize, nClients; std::vector<int> nMsgs; std::vector<bool> unreg; std::vector<std::pair<int,uint32> > planA, planB;};
-static Plan P; static std::vector<Client *> CS; static ThreadPool * g_tp = NULL; static WaitCondition * g_bDone = NULL; static WaitCondition * g_cDone = NULL;
+struct Plan {std::vector<bool> selfFed;   // a self-fed client gets its first Message from its owner; the handler of Message k then submits Message k+1 itself
+             int poolSize2; int trigX, trigY; volatile bool trigDone;    // poolSize2 > 0: a second pool, clients are moved between the two; trigX >= 0: client trigX's handler unregisters client trigY while it handles its first Message
+             bool destroyer; int destroyAfter; int poolSize, nClients; std::vector<int> nMsgs; std::vector<bool> unreg; std::vector<std::pair<int,uint32> > planA, planB;};
+static Plan P; static std::vector<Client *> CS; static ThreadPool * g_tp = NULL; static ThreadPool * g_tp2 = NULL; static std::vector<ThreadPool *> g_curPool; static WaitCondition * g_bDone = NULL; static WaitCondition * g_cDone = NULL; static WaitCondition * g_hDone = NULL;
 
+static void AfterLeavingAPool(int c, const char * how)
+{
+   char b[200];
+   if (M.activeIn[c+1] > 0) {snprintf(b, sizeof(b), "%s returned for client %d while a pool thread is still inside that client's handler", how, c+1); M.V(b);}
+   if ((!M.shutStarted)&&(M.handled[c].size() != M.submitted[c].size())) {snprintf(b, sizeof(b), "%s (client %d) returned after %zu of %zu submitted Messages were handled", how, c+1, M.handled[c].size(), M.submitted[c].size()); M.V(b);}
+}
+void Client :: FollowUp(uint32 what)
+{
+   const int c = _id-1;
+   if ((c >= (int) P.selfFed.size())||(!P.selfFed[c])||((int) what >= P.nMsgs[c])) return;
+   M.submitted[c].push_back(what+1);
+   if (SendMessageToThreadPool(GetMessageFromPool(what+1)).IsError()) {if (M.shutStarted) M.submitted[c].pop_back(); else M.V("SendMessageToThreadPool failed for a registered client (follow-up Message submitted by the client's own handler)");}
+}
+int Client :: P_trigX() {return ((P.trigX >= 0)&&(!P.trigDone)) ? P.trigX : -1;}
+// a handler of one client unregisters ANOTHER client (whose owner has handed it over: it never touches it again): the call must wait until that
+// client's Messages are done, like any other unregistration
+void Client :: HandlerUnregistersVictim()
+{
+   P.trigDone = true; const int y = P.trigY;
+   tl_unregClient = y+1; CS[y]->SetThreadPool(NULL); tl_unregClient = 0;
+   AfterLeavingAPool(y, "SetThreadPool(NULL) called from another client's handler");
+   M.unregReturned[y] = true;
+   (void) g_hDone->Notify();
+}
 static void RunPlan(const std::vector<std::pair<int,uint32> > & plan, int parity)
 {
    for (size_t i=0; i<plan.size(); i++) {
       const int c = plan[i].first;
+      if (plan[i].second == 0) {
+         // move the client to the other pool: leaving the old one must wait for its Messages there, like an unregistration
+         ThreadPool * target = (g_curPool[c] == g_tp) ? g_tp2 : g_tp;
+         CS[c]->SetThreadPool(target); g_curPool[c] = target;
+         AfterLeavingAPool(c, "SetThreadPool(other pool)");
+         vs::OpBoundary();
+         continue;
+      }
       M.submitted[c].push_back(plan[i].second);
       if (CS[c]->SendMessageToThreadPool(GetMessageFromPool(plan[i].second)).IsError()) {
          // refused: legitimate once the pool has been shut down (its clients are detached); the Message does not count as submitted
@@ -106,17 +146,20 @@ static void RunPlan(const std::vector<std::pair<int,uint32> > & plan, int parity
       }
       vs::OpBoundary();
    }
-   for (int c=parity; c<P.nClients; c+=2) if (P.unreg[c]) {
+   for (int c=parity; c<P.nClients; c+=2) if ((P.unreg[c])&&(c != P.trigY)) {
       tl_unregClient = c+1;
       CS[c]->SetThreadPool(NULL);
       tl_unregClient = 0;
-      if (M.activeIn[c+1] > 0) {char b[160]; snprintf(b, sizeof(b), "SetThreadPool(NULL) returned for client %d while a pool thread is still inside that client's handler", c+1); M.V(b);}
-      if ((!M.shutStarted)&&(M.handled[c].size() != M.submitted[c].size())) {char b[160]; snprintf(b, sizeof(b), "UnregisterClient(client %d) returned after %zu of %zu submitted Messages were handled", c+1, M.handled[c].size(), M.submitted[c].size()); M.V(b);}
+      AfterLeavingAPool(c, "UnregisterClient / SetThreadPool(NULL)");
       M.unregReturned[c] = true;
       vs::OpBoundary();
    }
 }
-static void SubmitterA() {vs::ThreadBegin(); RunPlan(P.planA, 0); (void) g_bDone->Wait(); if (P.destroyer) (void) g_cDone->Wait(); M.shutStarted = true; delete g_tp; g_tp = NULL; vs::ThreadEnd();}
+static void SubmitterA() {vs::ThreadBegin(); RunPlan(P.planA, 0); (void) g_bDone->Wait(); if (P.destroyer) (void) g_cDone->Wait();
+   // a handler that is waiting inside UnregisterClient() for another client's Messages cannot be joined by Shutdown(), and those Messages are no longer
+   // dispatched once the shutdown has begun: the pool goes away only after that handler's call has returned (the trigger Message was accepted, so it comes)
+   if (P.trigX >= 0) (void) g_hDone->Wait();
+   M.shutStarted = true; delete g_tp; g_tp = NULL; if (g_tp2) {delete g_tp2; g_tp2 = NULL;} vs::ThreadEnd();}
 static void Destroyer() {vs::ThreadBegin(); for (int k=0; k<P.destroyAfter; k++) vs::OpBoundary(); M.shutStarted = true; (void) AbstractObjectRecycler::GlobalFlushAllCachedObjects(); (void) g_cDone->Notify(); vs::ThreadEnd();}
 static void SubmitterB() {vs::ThreadBegin(); RunPlan(P.planB, 1); (void) g_bDone->Notify(); vs::ThreadEnd();}
 
@@ -262,12 +305,34 @@ int main(int argc, char ** argv)
          std::map<int,uint32> next; for (size_t i=0; i<order.size(); i++) {pl[i].first = order[i]; pl[i].second = ++next[order[i]];}
       }
       P.destroyer = (gen()%2) == 0; P.destroyAfter = (int)(gen()%7); if (P.destroyer) key += "D";
+      P.poolSize2 = 0; P.trigX = P.trigY = -1; P.trigDone = false; P.selfFed.assign(P.nClients, false);
+      {
+         const uint32 feature = gen()%4;
+         if ((feature == 1)&&(!P.destroyer)) {
+            // a second pool: every submitter moves some of its clients to the other pool (and perhaps back) between their Messages
+            P.poolSize2 = 1+(int)(gen()%2); key += "M";
+            // some clients are self-fed: only their first Message stays in the owner's plan
+            for (int c=0; c<P.nClients; c++) if ((P.nMsgs[c] >= 2)&&((gen()%2) == 0)&&(c != P.trigY)) {
+               P.selfFed[c] = true; key += "s";
+               std::vector<std::pair<int,uint32> > & pl = (c%2) ? P.planB : P.planA;
+               for (size_t i=0; i<pl.size(); ) {if ((pl[i].first == c)&&(pl[i].second > 1)) pl.erase(pl.begin()+i); else i++;}
+            }
+            for (int w=0; w<2; w++) {std::vector<std::pair<int,uint32> > & pl = w ? P.planB : P.planA; const int nm = (int)(gen()%3); for (int k=0; k<nm; k++) {int c = -1; for (int tries=0; (tries<8)&&(c < 0); tries++) {const int cc = (int)(gen()%P.nClients); if ((cc%2) == w) c = cc;} if (c >= 0) pl.insert(pl.begin()+(gen()%(pl.size()+1)), std::make_pair(c, (uint32) 0));}}
+         }
+         else if ((feature == 2)&&(!P.destroyer)&&(P.poolSize >= 2)&&(P.nClients >= 3)) {
+            // clients x and y = x+2 belong to the same submitter: y's Messages go first, then the rest; x's first Message makes its handler unregister y
+            const int x = (int)(gen()%(P.nClients-2)), y = x+2; std::vector<std::pair<int,uint32> > & pl = (x%2) ? P.planB : P.planA;
+            bool xHas = false; for (size_t i=0; i<pl.size(); i++) if (pl[i].first == x) xHas = true;
+            if (xHas) {std::stable_partition(pl.begin(), pl.end(), [y](const std::pair<int,uint32> & e){return e.first == y;}); P.trigX = x; P.trigY = y; key += "H";}
+         }
+      }
       distinct.insert(key);
-      g_mute = false; g_record = (tf != NULL)&&(tracesWritten < (long) ntraces); g_lines.clear(); G.open = false; g_clientId.clear(); g_threadOfObj.clear(); g_poolThreadOfTid.clear();
+      g_shutFinals = 0; g_mute = false; g_record = (tf != NULL)&&(tracesWritten < (long) ntraces)&&(P.poolSize2 == 0)&&(P.trigX < 0) /* TPImpl models one pool and unregistrations by user threads: the other executions are judged by the monitor */; g_lines.clear(); G.open = false; g_clientId.clear(); g_threadOfObj.clear(); g_poolThreadOfTid.clear();
       vs::Reset(seed, vs::RANDOM); vs::S.onEvent = ObserveEvent; vs::S.onResume = ObserveResume; vs::S.onYield = nullptr; vs::S.stickiness = (int)(gen()%3)*35; vs::S.atomicLocks = g_record;
-      M.Reset(P.nClients, P.poolSize);
-      g_tp = new ThreadPool(P.poolSize); WaitCondition bDone; g_bDone = &bDone; WaitCondition cDone; g_cDone = &cDone;
-      CS.clear(); for (int c=0; c<P.nClients; c++) {Client * cl = new Client(g_tp, c+1); CS.push_back(cl); g_clientId[cl] = c+1;}
+      M.Reset(P.nClients, P.poolSize+P.poolSize2);
+      g_tp2 = (P.poolSize2 > 0) ? new ThreadPool(P.poolSize2) : NULL;
+      g_tp = new ThreadPool(P.poolSize); WaitCondition bDone; g_bDone = &bDone; WaitCondition cDone; g_cDone = &cDone; WaitCondition hDone; g_hDone = &hDone;
+      CS.clear(); g_curPool.clear(); for (int c=0; c<P.nClients; c++) {Client * cl = new Client(g_tp, c+1); CS.push_back(cl); g_clientId[cl] = c+1; g_curPool.push_back(g_tp);}
       std::vector<std::thread> ths; ths.emplace_back(SubmitterA); vs::WaitRegistered(1); ths.emplace_back(SubmitterB); vs::WaitRegistered(2);
       if (P.destroyer) {ths.emplace_back(Destroyer); vs::WaitRegistered(3);}
       const bool ok = vs::RunAllRandom(ths.size());
@@ -283,7 +348,7 @@ int main(int argc, char ** argv)
             else if ((M.unregReturned[c])&&(!M.shutStarted)) {/* checked at return */}
             handledTotal += (long) h.size(); droppedByShutdown += (long) (s.size()-std::min(h.size(), s.size()));
          }
-         if (M.maxActive > P.poolSize) {snprintf(b, sizeof(b), "%d handlers were active at once in a pool of %d threads", M.maxActive, P.poolSize); M.V(b);}
+         if (M.maxActive > M.poolSize) {snprintf(b, sizeof(b), "%d handlers were active at once in pools of %d threads in all", M.maxActive, M.poolSize); M.V(b);}
       }
       if (!M.violations.empty()) {
          violated++;
